@@ -715,6 +715,14 @@ class FGen:
             k = self.fresh("kk") if rng.random() < 0.5 else rng.choice(["k1", "k2", "u"])
             body.append(["call", [k], "<func>rhs", [["var", "<t>"], ["var", "<state>y"]], {}, 0])
             body.append(["assign", "<state>y", None, ["+", ["var", "<state>y"], ["*", ["var", "<dt>"], ["var", k]]], [], 0])
+            if self.struct_type and rng.random() < 0.35:
+                # the structure-typed component is read elementwise, handed new storage by a move, and read
+                # elementwise again in the same phase
+                za = ["var", "<state>za"]
+                body.append(["assign", "ua", None, ["+", ["*", ["num", 0.5], za], ["*", ["num", 0.25], za]], [], 0])
+                body.append(["assign", "<state>za", None, ["var", "ua"], [], 0])
+                body.append(["assign", "va", None, ["*", ["num", 0.5], za], [], 0])
+                body.append(["assign", "<state>za", None, ["+", ["var", "va"], ["*", ["num", 0.5], za]], [], 0])
             if self.struct_type:
                 ka = self.fresh("kz") if rng.random() < 0.5 else "ua"
                 body.append(["call", [ka], "<func>rhsa", [["var", "<t>"], ["var", "<state>za"]], {}, 0])
